@@ -103,12 +103,51 @@ func c07Unmarshal(h hash.Hash, b []byte) (err error, panicMsg string) {
 	return err, ""
 }
 
-// c07Exercise runs the op list of the property on a state that UnmarshalBinary
-// accepted.  It returns a description of the first panic, or "".
-// squeezing: legacy Keccak direction byte 1 — Write/Sum panic there by
-// documented design ("Write after Read" / "Sum after Read"); anything else is reported.
-func c07Exercise(k c07Kind, h hash.Hash, squeezing bool) (failure string) {
+// c07Ops are the operations run, in a chosen order, on a state that UnmarshalBinary accepted.
+var c07Ops = []string{"Sum", "Write(0)", "Write(1)", "Write(bs-1)", "Write(bs)", "Write(200)", "Reset", "Marshal", "Read(300)", "Sum#2", "Read(0)"}
+
+// c07Perm derives an operation order from a number: every op is first for some value of
+// order (order mod len), and the remainder cycles through three arrangements.
+func c07Perm(order int) []int {
+	n := len(c07Ops)
+	base := make([]int, n)
+	for i := range base {
+		base[i] = i
+	}
+	switch (order / n) % 3 {
+	case 1:
+		for i, j := 0, n-1; i < j; i, j = i+1, j-1 {
+			base[i], base[j] = base[j], base[i]
+		}
+	case 2:
+		out := make([]int, 0, n)
+		for i := 0; i < n; i += 2 {
+			out = append(out, base[i])
+		}
+		for i := 1; i < n; i += 2 {
+			out = append(out, base[i])
+		}
+		base = out
+	}
+	first := order % n
+	perm := []int{first}
+	for _, v := range base {
+		if v != first {
+			perm = append(perm, v)
+		}
+	}
+	return perm
+}
+
+// c07Exercise runs the operations of the property, in the order given by perm, on a
+// state that UnmarshalBinary accepted, each under recover.  It returns a description of
+// the first panic (with the order executed so far), or "".
+// squeezing: legacy Keccak direction byte 1 (or after a Read): Write/Sum panic there by
+// documented design ("... after Read"); anything else is reported.
+func c07Exercise(k c07Kind, h hash.Hash, squeezing bool, perm []int) (failure string) {
+	var done []string
 	step := func(what string, f func()) bool {
+		done = append(done, what)
 		msg, p := catch(f)
 		if !p {
 			return true
@@ -116,7 +155,7 @@ func c07Exercise(k c07Kind, h hash.Hash, squeezing bool) (failure string) {
 		if squeezing && (strings.HasPrefix(what, "Write") || strings.HasPrefix(what, "Sum")) && strings.Contains(msg, "after Read") {
 			return true
 		}
-		failure = fmt.Sprintf("%s panicked: %s", what, msg)
+		failure = fmt.Sprintf("%s panicked: %s (operations after UnmarshalBinary: %s)", what, msg, strings.Join(done, ", "))
 		return false
 	}
 	var size int
@@ -134,24 +173,46 @@ func c07Exercise(k c07Kind, h hash.Hash, squeezing bool) (failure string) {
 			return true // tolerated documented panic (squeezing state)
 		}
 		if len(out) != 1+size || out[0] != 0xee {
-			failure = fmt.Sprintf("%s returned %d bytes for Size() = %d", what, len(out)-1, size)
+			failure = fmt.Sprintf("%s returned %d bytes for Size() = %d (operations: %s)", what, len(out)-1, size, strings.Join(done, ", "))
 			return false
 		}
 		return true
 	}
-	ok := step("Write(0 bytes)", func() { h.Write(nil) }) &&
-		step("Write(1 byte)", func() { h.Write(data[:1]) }) &&
-		checkSum("Sum") &&
-		step(fmt.Sprintf("Write(%d bytes)", k.bs-1), func() { h.Write(data[:k.bs-1]) }) &&
-		checkSum("Sum") &&
-		step(fmt.Sprintf("Write(%d bytes)", k.bs), func() { h.Write(data[:k.bs]) }) &&
-		step("Write(200 bytes)", func() { h.Write(data) }) &&
-		checkSum("Sum")
-	if !ok {
-		return
-	}
-	if r, isReader := h.(io.Reader); isReader && squeezing {
-		if !step("Read(300 bytes)", func() { r.Read(make([]byte, 300)) }) {
+	reader, isReader := h.(io.Reader)
+	for _, oi := range perm {
+		ok := true
+		switch c07Ops[oi] {
+		case "Sum", "Sum#2":
+			ok = checkSum(c07Ops[oi])
+		case "Write(0)":
+			ok = step("Write(0 bytes)", func() { h.Write(nil) })
+		case "Write(1)":
+			ok = step("Write(1 byte)", func() { h.Write(data[:1]) })
+		case "Write(bs-1)":
+			ok = step(fmt.Sprintf("Write(%d bytes)", k.bs-1), func() { h.Write(data[:k.bs-1]) })
+		case "Write(bs)":
+			ok = step(fmt.Sprintf("Write(%d bytes)", k.bs), func() { h.Write(data[:k.bs]) })
+		case "Write(200)":
+			ok = step("Write(200 bytes)", func() { h.Write(data) })
+		case "Reset":
+			ok = step("Reset", func() { h.Reset() })
+			squeezing = false
+		case "Marshal":
+			ok = step("MarshalBinary", func() { c07Marshal(h) })
+			if ap, isAp := h.(encoding.BinaryAppender); ok && isAp {
+				ok = step("AppendBinary(3-byte prefix)", func() { ap.AppendBinary([]byte{1, 2, 3}) })
+			}
+		case "Read(300)", "Read(0)":
+			if isReader {
+				n := 300
+				if c07Ops[oi] == "Read(0)" {
+					n = 0
+				}
+				ok = step(fmt.Sprintf("Read(%d bytes)", n), func() { reader.Read(make([]byte, n)) })
+				squeezing = true // from now on Write/Sum panic by documented design until Reset
+			}
+		}
+		if !ok {
 			return
 		}
 	}
@@ -202,7 +263,22 @@ const (
 
 // c07Feed gives one byte string to UnmarshalBinary of a fresh hash and
 // exercises the result.  A non-empty failure is a violation.
-func c07Feed(c *ev.Collector, k c07Kind, state []byte) (c07Verdict, string) {
+// orders: operation orders to try; every order gets a freshly unmarshaled hash.
+func c07Feed(c *ev.Collector, k c07Kind, state []byte, orders ...[]int) (c07Verdict, string) {
+	if len(orders) == 0 {
+		orders = [][]int{c07Perm(0)}
+	}
+	verdict, failure := c07FeedOne(c, k, state, orders[0])
+	for _, perm := range orders[1:] {
+		if failure != "" || verdict != c07AcceptedOK {
+			break
+		}
+		verdict, failure = c07FeedOne(c, k, state, perm)
+	}
+	return verdict, failure
+}
+
+func c07FeedOne(c *ev.Collector, k c07Kind, state []byte, perm []int) (c07Verdict, string) {
 	h := k.fresh()
 	err, pmsg := c07Unmarshal(h, state)
 	if pmsg != "" {
@@ -216,14 +292,14 @@ func c07Feed(c *ev.Collector, k c07Kind, state []byte) (c07Verdict, string) {
 		// ("invalid hash state size" / "invalid hash state"); an accepted over-long input
 		// also means the validated bytes need not be the parsed ones.  Exercise it anyway
 		// so that a resulting panic is part of the report.
-		f := c07Exercise(k, h, false)
+		f := c07Exercise(k, h, false, perm)
 		if f != "" {
 			f = " and then " + f
 		}
 		return c07AcceptedOK, fmt.Sprintf("%s UnmarshalBinary accepted a %d-byte input (marshaled length is %d)%s: %x", k.name, len(state), k.mlen, f, state)
 	}
 	squeezing := k.family == "keccak" && len(state) == k.mlen && state[k.dirAt] == 1
-	if f := c07Exercise(k, h, squeezing); f != "" {
+	if f := c07Exercise(k, h, squeezing, perm); f != "" {
 		if what, in := c07F1Class(k, state); in {
 			if _, listed := ev.IsKnownFinding("F1"); listed {
 				c.Known(what)
@@ -234,6 +310,26 @@ func c07Feed(c *ev.Collector, k c07Kind, state []byte) (c07Verdict, string) {
 		return c07AcceptedOK, fmt.Sprintf("%s UnmarshalBinary accepted %x but then %s", k.name, state, f)
 	}
 	return c07AcceptedOK, ""
+}
+
+// c07OnBoundary: a range-checked numeric field of the state is at 0, limit-1, limit, limit+1 or 255,
+// the limit being taken from the format (digest size, block size, rate).
+func c07OnBoundary(k c07Kind, state []byte) bool {
+	if len(state) != k.mlen {
+		return false
+	}
+	near := func(v byte, limit int) bool {
+		x := int(v)
+		return x == 0 || x == 1 || x == limit-1 || x == limit || x == limit+1 || x == 255
+	}
+	if k.family == "keccak" {
+		return near(state[k.nAt], k.bs) || state[k.dirAt] != 0
+	}
+	max := 64
+	if k.family == "blake2s" {
+		max = 32
+	}
+	return near(state[k.sizeAt], max) || near(state[k.offAt], k.bs)
 }
 
 // c07FieldBounds lists the offsets at which a field of the marshaled form starts or ends.
@@ -342,7 +438,19 @@ func TestC07(t *testing.T) {
 	// ---- bounded-exhaustive field enumeration ----
 	item := 0
 	run := func(k c07Kind, field string, v1, v2 int, state []byte, space *int) {
-		verdict, failure := c07Feed(c, k, state)
+		// operation orders: three per state (rotating with the enumeration index), and every
+		// operation first when a range-checked field sits on a boundary of its range
+		orders := [][]int{c07Perm(item), c07Perm(item + 4 + len(c07Ops)), c07Perm(item + 7 + 2*len(c07Ops))}
+		if c07OnBoundary(k, state) {
+			orders = nil
+			for o := 0; o < len(c07Ops); o++ {
+				orders = append(orders, c07Perm(o+len(c07Ops)*(item%3)))
+			}
+		}
+		verdict, failure := c07Feed(c, k, state, orders...)
+		if verdict == c07AcceptedOK {
+			c.ClassN("op-orders-tried", len(orders))
+		}
 		if failure != "" {
 			c.Violation(failure, "")
 			t.Fatalf("VF-VIOLATION: property=C07 %s", failure)
@@ -780,6 +888,30 @@ func c07Transparency(c *ev.Collector, rt *rapid.T, k c07Kind) {
 		c.Case(true, shape, "transparency:"+k.family, "transparency:keccak-squeezing", lc, fc)
 		return
 	}
+	// the first operation on the restored hash is drawn (an untampered state must survive every order too)
+	switch rapid.IntRange(0, 3).Draw(rt, "firstOpAfterRestore") {
+	case 1:
+		h2.Write(nil)
+		c.Class("restored-first-op:Write(0)")
+	case 2:
+		if m, err := c07Marshal(h2); err != nil || !bytes.Equal(m, state) {
+			fail("MarshalBinary as the first operation on the restored hash gives %x (err %v), want %x", m, err, state)
+		}
+		c.Class("restored-first-op:Marshal")
+	case 3:
+		h3 := k.fresh()
+		if uerr, pmsg := c07Unmarshal(h3, state); uerr != nil || pmsg != "" {
+			fail("second UnmarshalBinary of the same state failed: %v %q", uerr, pmsg)
+		}
+		h3.Reset()
+		h3.Write(msg)
+		if s3 := h3.Sum(nil); !bytes.Equal(s3, k.ref(msg)) {
+			fail("Reset as the first operation on a restored hash, then Write(msg): %x, reference %x", s3, k.ref(msg))
+		}
+		c.Class("restored-first-op:Reset")
+	default:
+		c.Class("restored-first-op:Sum")
+	}
 	// suffix: same bytes, independently drawn chunking for the restored hash
 	if s1, s2 := h.Sum(nil), h2.Sum(nil); !bytes.Equal(s1, s2) || !bytes.Equal(s1, k.ref(msg[:prefix])) {
 		fail("Sum right after the round trip: original %x restored %x reference %x", s1, s2, k.ref(msg[:prefix]))
@@ -954,7 +1086,15 @@ func c07Corruption(c *ev.Collector, rt *rapid.T, k c07Kind) {
 			val = int(state[k.nAt])<<8 | int(state[k.dirAt])
 		}
 	}
-	verdict, failure := c07Feed(c, k, state)
+	idx := make([]int, len(c07Ops))
+	for i := range idx {
+		idx[i] = i
+	}
+	perm := rapid.Permutation(idx).Draw(rt, "opOrder")
+	verdict, failure := c07Feed(c, k, state, perm, c07Perm(rapid.IntRange(0, 3*len(c07Ops)-1).Draw(rt, "opOrder2")))
+	if verdict == c07AcceptedOK {
+		c.Class("first-op:" + c07Ops[perm[0]])
+	}
 	if failure != "" {
 		rt.Fatalf("VF-VIOLATION: property=C07 corrupted field=%s: %s", field, failure)
 	}
